@@ -91,12 +91,18 @@ Fixpoint of_digits (acc : N) (l : comp) : N :=
   | b :: r => if is_digit b then of_digits (acc * 10 + (b - 48)) r else acc
   end.
 
-(* std::stoul(component): value of the maximal leading digit string, failure (exception, caught:
-   the entry is skipped) when there is none.  Leading white space / sign and values >= 2^32 are not
-   modelled (the generators do not produce them). *)
-Definition stoul (cp : comp) : option N :=
+(* The index component of a recovered file name: std::stoul(component, &pos) with pos == size required, i.e.
+   the component must be a non-empty digit string (a name such as "5x" is not one of the sink's files).
+   Leading white space / sign and values >= 2^32 are not modelled (the generators do not produce them).
+   [stoul_lenient] is the pinned tree's parse (maximal leading digit string): finding C14-decoy-index, fixed. *)
+Definition stoul_lenient (cp : comp) : option N :=
   match cp with
   | b :: _ => if is_digit b then Some (of_digits 0 cp) else None
+  | [] => None
+  end.
+Definition stoul (cp : comp) : option N :=
+  match cp with
+  | _ :: _ => if forallb is_digit cp then Some (of_digits 0 cp) else None
   | [] => None
   end.
 
